@@ -3,6 +3,7 @@ package setec
 import (
 	"context"
 	"encoding/json"
+	"reflect"
 	"time"
 
 	"github.com/tailscale/setec/types/api"
@@ -392,3 +393,100 @@ type verifTicker struct {
 func (t *verifTicker) Chan() <-chan time.Time { return envChan[time.Time]("ticker", t.ready) }
 func (t *verifTicker) Stop()                  { t.stopped = true }
 func (t *verifTicker) Done()                  { t.dones++ }
+
+// ---- struct-tagged declarations (ParseFields replaced by a hand-built field list: tag parsing is outside, see C20) ----
+
+// Three shapes with real tags, so that natively the real ParseFields yields the same field lists.
+type verifTagged1 struct {
+	A []byte `setec:"tagged/a"`
+}
+type verifTagged2 struct {
+	A []byte `setec:"tagged/a"`
+	B []byte `setec:"tagged/b"`
+}
+type verifTagged3 struct {
+	A []byte `setec:"tagged/a"`
+	B []byte `setec:"tagged/a"`
+}
+
+func verifStubParseFields(obj any, prefix string) (*Fields, error) {
+	f := &Fields{prefix: prefix}
+	switch t := obj.(type) {
+	case *verifTagged1:
+		f.fields = []fieldInfo{{fieldName: "A", secretName: "tagged/a", value: reflect.ValueOf(&t.A), vtype: bytesType}}
+	case *verifTagged2:
+		f.fields = []fieldInfo{{fieldName: "A", secretName: "tagged/a", value: reflect.ValueOf(&t.A), vtype: bytesType},
+			{fieldName: "B", secretName: "tagged/b", value: reflect.ValueOf(&t.B), vtype: bytesType}}
+	case *verifTagged3:
+		f.fields = []fieldInfo{{fieldName: "A", secretName: "tagged/a", value: reflect.ValueOf(&t.A), vtype: bytesType},
+			{fieldName: "B", secretName: "tagged/a", value: reflect.ValueOf(&t.B), vtype: bytesType}}
+	default:
+		return nil, verifErrInjected
+	}
+	return f, nil
+}
+
+// Declared names may come from Secrets and from struct tags, with duplicates across and within both.
+func verifHarnessC10NewStoreStructs() {
+	verifEnvReset()
+	// tag names are concrete (path.Join is applied to them); which of them the listed names repeat is symbolic
+	var target any
+	var fieldA *[]byte
+	var verifTagNames []string
+	switch nondetChoice("tags", 3) {
+	case 0:
+		t := &verifTagged1{}
+		target, fieldA, verifTagNames = t, &t.A, []string{"tagged/a"}
+	case 1:
+		t := &verifTagged2{}
+		target, fieldA, verifTagNames = t, &t.A, []string{"tagged/a", "tagged/b"}
+	case 2:
+		t := &verifTagged3{}
+		target, fieldA, verifTagNames = t, &t.A, []string{"tagged/a", "tagged/a"}
+	}
+	listed := []string{nondetString("declared")}
+	svc := map[string]*api.SecretValue{}
+	all := append(append([]string{}, listed...), verifTagNames...)
+	for _, nm := range all {
+		if _, dup := svc[nm]; !dup {
+			svc[nm] = &api.SecretValue{Value: nondetSeq("svc.val"), Version: api.SecretVersion(nondetU32("svc.ver"))}
+		}
+	}
+	client := &verifInitClient{svc: svc, maxFails: 0}
+	ctx := &verifCtx{tag: "init"}
+	cfg := StoreConfig{Client: client, Secrets: append([]string(nil), listed...), Structs: []Struct{{Value: target}},
+		PollInterval: -1, Logf: verifLogf, TimeNow: verifTimeNow}
+	if nondetBool("with.cache") {
+		// a cache that already holds one of the names
+		doc := map[string]*cachedSecret{}
+		mapPutIf(doc, nondetString("cache.name"), verifSymCached(false), true)
+		bs, _ := json.Marshal(doc)
+		cfg.Cache = &verifCache{content: bs}
+	}
+
+	s, err := NewStore(ctx, cfg)
+
+	if listed[0] == "" {
+		assert("empty-name-rejected", and(s == nil, err != nil))
+		reach("end-empty")
+		return
+	}
+	assert("constructed", and(s != nil, err == nil))
+	for _, nm := range all {
+		cs := s.active.m[nm]
+		if cs == nil {
+			assert("declared-name-has-value", false)
+			return
+		}
+		assert("declared-name-has-value", and(cs.Secret != nil, cs.Declared))
+	}
+	norefetch := true
+	for j := range client.names {
+		for i := 0; i < j; i++ {
+			norefetch = and(norefetch, client.names[i] != client.names[j])
+		}
+	}
+	assert("each-name-fetched-at-most-once", norefetch)
+	assert("struct-field-populated", bytesEq(*fieldA, s.active.m["tagged/a"].Secret.Value))
+	reach("end-ok")
+}
